@@ -21,9 +21,11 @@
 EXTENDS ServerAbs, Json, IOUtils, TLCExt, Integers
 
 Rec_ == ndJsonDeserialize(IOEnv.TRACE)
-VARIABLES l, fault      \* fault = [p: configured fault percentage, b: configured batch_size (0 = unknown),
+VARIABLES pubq,         \* snapshots published by the server and not yet popped by the harness: sequence of [valid, invalid, responses, bytes,
+                        \* failed, entries]; the queue holds at most e.qcap of them (force_push drops the oldest)
+          l, fault      \* fault = [p: configured fault percentage, b: configured batch_size (0 = unknown),
                         \*          allg: batches of >= 8 responses of the section in which EVERY response was fault-injected]
-tvars == <<reqs, roots, totals, l, fault>>
+tvars == <<reqs, roots, totals, l, fault, pubq>>
 
 Bad(reasons) == IF reasons = {} THEN TRUE ELSE TLCSet(2, TLCGet(2) \o <<[i |-> l, why |-> reasons]>>)
 SetOf(seq) == {seq[i] : i \in 1..Len(seq)}
@@ -32,7 +34,7 @@ ZeroTotals == [arrivals |-> 0, replies |-> 0, bytes |-> 0, greased |-> 0, failin
 \* the harness's client sockets are bound to 127.0.0.(1 + i % 200); the unroutable source is 127.0.0.1
 IpOf(sock) == IF sock = 9999 THEN 1 ELSE 1 + (sock % 200)
 
-TInit == /\ l = 1 /\ TLCSet(2, <<>>) /\ reqs = NoReqs /\ roots = {} /\ totals = ZeroTotals /\ fault = [p |-> 0, b |-> 0, allg |-> 0]
+TInit == /\ pubq = <<>> /\ l = 1 /\ TLCSet(2, <<>>) /\ reqs = NoReqs /\ roots = {} /\ totals = ZeroTotals /\ fault = [p |-> 0, b |-> 0, allg |-> 0]
 
 Rp(e) == [sock |-> e.sock, len |-> e.len, parse |-> e.parse, v |-> e.v, frame_ok |-> e.frame_ok,
           nonce_reqs |-> SetOf(e.nonce_reqs), proof_reqs |-> SetOf(e.proof_reqs), has_nonce |-> e.has_nonce,
@@ -48,17 +50,17 @@ TNext ==
     /\ l <= Len(Rec_)
     /\ LET e == Rec_[l] IN
        CASE e.ev = "new" -> /\ Bad(IF e.announced_ok THEN {} ELSE {"announced_key"})
-                            /\ reqs' = NoReqs /\ roots' = {} /\ totals' = ZeroTotals /\ fault' = [p |-> e.fault, b |-> e.batch, allg |-> 0]
-         [] e.ev = "round" -> (IF "discarded" \in DOMAIN e THEN UNCHANGED <<reqs, roots, totals>> ELSE RoundBegin) /\ UNCHANGED fault
-         [] e.ev = "arrive" -> Receive(e.sock, e.f, ~("unroutable" \in DOMAIN e)) /\ UNCHANGED fault
+                            /\ reqs' = NoReqs /\ roots' = {} /\ totals' = ZeroTotals /\ fault' = [p |-> e.fault, b |-> e.batch, allg |-> 0] /\ pubq' = <<>>
+         [] e.ev = "round" -> (IF "discarded" \in DOMAIN e THEN UNCHANGED <<reqs, roots, totals>> ELSE RoundBegin) /\ UNCHANGED <<fault, pubq>>
+         [] e.ev = "arrive" -> Receive(e.sock, e.f, ~("unroutable" \in DOMAIN e)) /\ UNCHANGED <<fault, pubq>>
          [] e.ev = "pumped" -> /\ Bad((IF e.panic THEN {"panic"} ELSE {}) \cup (IF e.wedged THEN {"wedged"} ELSE {}))
-                               /\ UNCHANGED <<reqs, roots, totals, fault>>
+                               /\ UNCHANGED <<reqs, roots, totals, fault, pubq>>
          [] e.ev = "reply" -> /\ Bad(RespondReasons(Rp(e)) \cup RootReasons(Rp(e)))
-                              /\ Respond(Rp(e)) /\ UNCHANGED fault
-         [] e.ev = "round_end" -> /\ Bad(RoundEndReasons \cup BatchReasons(fault.b)) /\ UNCHANGED <<reqs, roots, totals, fault>>
+                              /\ Respond(Rp(e)) /\ UNCHANGED <<fault, pubq>>
+         [] e.ev = "round_end" -> /\ Bad(RoundEndReasons \cup BatchReasons(fault.b)) /\ UNCHANGED <<reqs, roots, totals, fault, pubq>>
          [] e.ev = "hc_round" -> /\ Bad(IF e.ok200 = e.conns /\ e.connected = e.conns THEN {} ELSE {"health_check_unanswered"})
-                                 /\ UNCHANGED <<reqs, roots, totals, fault>>
-         [] e.ev = "log" -> /\ Bad(IF e.leak THEN {"leak_in_log"} ELSE {}) /\ UNCHANGED <<reqs, roots, totals, fault>>
+                                 /\ UNCHANGED <<reqs, roots, totals, fault, pubq>>
+         [] e.ev = "log" -> /\ Bad(IF e.leak THEN {"leak_in_log"} ELSE {}) /\ UNCHANGED <<reqs, roots, totals, fault, pubq>>
          [] e.ev = "stats" ->
               \* a valid request whose response could not be sent (unroutable source) counts as valid and as ONE failed send
               /\ Bad((IF e.valid = totals.replies + totals.unroutable THEN {} ELSE {"stats_valid_requests"})
@@ -66,39 +68,44 @@ TNext ==
                      \cup (IF "failed" \in DOMAIN e /\ e.failed # totals.unroutable THEN {"stats_failed_sends"} ELSE {})
                      \cup (IF e.responses = totals.replies THEN {} ELSE {"stats_responses"})
                      \cup (IF e.bytes = totals.bytes THEN {} ELSE {"stats_bytes"}))
-              /\ UNCHANGED <<reqs, roots, totals, fault>>
+              /\ UNCHANGED <<reqs, roots, totals, fault, pubq>>
          [] e.ev = "bulk" ->      \* e.n invalid datagrams consumed without per-datagram events: none may be answered
               /\ Bad((IF e.panic THEN {"panic"} ELSE {}) \cup (IF e.wedged THEN {"wedged"} ELSE {})
                      \cup (IF e.replies > 0 THEN {"reply_to_malformed"} ELSE {}))
               /\ totals' = [totals EXCEPT !.arrivals = @ + e.n, !.socks = @ \cup {5}]
-              /\ UNCHANGED <<reqs, roots, fault>>
+              /\ UNCHANGED <<reqs, roots, fault, pubq>>
          [] e.ev = "publish" ->
-              \* Server::send_client_stats (the status timer's step) on the REAL server, then everything popped from its queue:
-              \* with the per-client recorder a snapshot is pushed iff anything was recorded since the last publication; it
-              \* holds one entry per source address and exactly the traffic; the recorder starts over. The aggregated
-              \* recorder publishes nothing.
-              LET expectPush == e.client_stats /\ totals.arrivals > 0 IN
+              \* Server::send_client_stats (the status timer's step) on the REAL server; if e.drain, everything is then popped
+              \* from its queue. With the per-client recorder a snapshot is pushed iff anything was recorded since the last
+              \* publication; it holds one entry per source address and exactly the traffic; the recorder starts over whether or
+              \* not the queue was full (force_push drops the OLDEST snapshot then). The aggregated recorder publishes nothing.
+              LET expectPush == e.client_stats /\ totals.arrivals > 0
+                  snap == [valid |-> totals.replies + totals.unroutable, invalid |-> totals.arrivals - totals.replies - totals.unroutable,
+                           responses |-> totals.replies, bytes |-> totals.bytes, failed |-> totals.unroutable,
+                           entries |-> Cardinality({IpOf(x) : x \in totals.socks})]
+                  q1 == IF expectPush THEN (IF Len(pubq) >= e.qcap THEN Tail(pubq) ELSE pubq) \o <<snap>> ELSE pubq
+                  Sum(f) == LET RECURSIVE S(_) S(k) == IF k = 0 THEN 0 ELSE q1[k][f] + S(k - 1) IN S(Len(q1))
+              IN
               /\ Bad(IF e.panic THEN {"panic"}
-                     ELSE IF ~expectPush THEN (IF e.snapshots = 0 THEN {} ELSE {"stats_publication"})
-                     ELSE IF /\ e.snapshots = 1 /\ e.post_zero
-                             /\ e.entries = Cardinality({IpOf(s) : s \in totals.socks})
-                             /\ e.valid = totals.replies + totals.unroutable
-                             /\ e.invalid = totals.arrivals - totals.replies - totals.unroutable
-                             /\ e.responses = totals.replies /\ e.bytes = totals.bytes /\ e.failed = totals.unroutable
-                          THEN {} ELSE {"stats_publication"})
+                     ELSE (IF expectPush /\ ~e.post_zero THEN {"stats_publication"} ELSE {})
+                          \cup (IF e.drain /\ ~(/\ e.snapshots = Len(q1) /\ e.entries = Sum("entries") /\ e.valid = Sum("valid")
+                                                /\ e.invalid = Sum("invalid") /\ e.responses = Sum("responses")
+                                                /\ e.bytes = Sum("bytes") /\ e.failed = Sum("failed"))
+                               THEN {"stats_publication"} ELSE {}))
               /\ totals' = (IF expectPush THEN ZeroTotals ELSE totals)
+              /\ pubq' = (IF e.drain THEN <<>> ELSE q1)
               /\ UNCHANGED <<reqs, roots, fault>>
          [] e.ev = "grease_batch" ->     \* one signed batch: how many responses it had and how many of them were fault-injected
               /\ fault' = [fault EXCEPT !.allg = @ + (IF e.n >= 8 /\ e.greased = e.n THEN 1 ELSE 0)]
-              /\ UNCHANGED <<reqs, roots, totals>>
+              /\ UNCHANGED <<reqs, roots, totals, pubq>>
          [] e.ev = "grease_end" ->
               \* the fault decision is made per RESPONSE, independently: with p <= 50 a batch of >= 8 responses that are ALL
               \* fault-injected has probability <= 0.4 %; over the few hundred batches of a section more than 8 of them means the
               \* decisions are correlated (e.g. one coin per batch), whatever the overall share
               /\ Bad((IF totals.replies >= e.min_replies /\ GreaseOk(totals.failing, totals.replies, fault.p) THEN {} ELSE {"fault_rate"})
                      \cup (IF fault.p <= 50 /\ fault.allg > 8 THEN {"fault_not_per_response"} ELSE {}))
-              /\ UNCHANGED <<reqs, roots, totals, fault>>
-         [] OTHER -> Bad({"unknown_event"}) /\ UNCHANGED <<reqs, roots, totals, fault>>
+              /\ UNCHANGED <<reqs, roots, totals, fault, pubq>>
+         [] OTHER -> Bad({"unknown_event"}) /\ UNCHANGED <<reqs, roots, totals, fault, pubq>>
     /\ l' = l + 1
 
 TSpec == TInit /\ [][TNext]_tvars
